@@ -5,6 +5,6 @@ for d in seeded/*/; do
   id=$(basename "$d")
   prop=$(echo "$id" | cut -d- -f1)
   extra=""
-  case "$id" in C02-1) extra="C02 C05";; C02-2) extra="C02 C08 C09";; C05-2) extra="C05 C02";; esac
-  GFAMC_NPROC=${GFAMC_NPROC:-8} /venv/bin/python tools/seedcheck.py "$d" "$id" "$prop" $extra 2>&1 | cut -c1-300
+  case "$id" in C02-1) extra="C02 C05";; C02-2) extra="C02 C08 C09";; C05-2) extra="C05 C02";; C02-7) extra="C02 C08";; C05-8) extra="C05 C19";; C05-9) extra="C05 C02";; esac
+  GFAMC_NPROC=${GFAMC_NPROC:-4} /venv/bin/python tools/seedcheck.py "$d" "$id" "$prop" $extra 2>&1 | cut -c1-300
 done
